@@ -517,6 +517,32 @@ static void case_zero_fresh(Tape &t, Ctx &cx)
         R b = m == 0 ? a_pid_run(&q, set, fdb) : m == 1 ? a_pid_pos(&q, set, fdb) : a_pid_inc(&q, set, fdb);
         VP_CHECK(cx, memcmp(&a, &b, sizeof(R)) == 0 && p.sum == q.sum, "pid:zero_not_fresh", "step %u after a_pid_zero: output %.17g, a freshly initialised controller gives %.17g", s, a, b);
     }
+    // every call is a step, whether or not the caller looks at the returned value and whether or not the arguments changed since
+    // the last call: one controller is stepped m times with a constant sample and the results thrown away (it is read through its
+    // fields afterwards), its twin with the same sample read from volatile storage and every result used
+    {
+        a_pid p2, q2;
+        memset(&p2, 0, sizeof(p2));
+        memset(&q2, 0, sizeof(q2));
+        apply(p2, c);
+        apply(q2, c);
+        a_pid_init(&p2);
+        a_pid_init(&q2);
+        R cs, cf;
+        gen_in(t, exact, cs, cf);
+        unsigned m = 2 + t.u8() % 5, md = t.u8() % 3;
+        for (unsigned k = 0; k < m; ++k)
+        {
+            if (md == 0) { (void)a_pid_run(&p2, cs, cf); }
+            else if (md == 1) { (void)a_pid_pos(&p2, cs, cf); }
+            else { (void)a_pid_inc(&p2, cs, cf); }
+        }
+        volatile R vs = cs, vf = cf;
+        R acc = 0;
+        for (unsigned k = 0; k < m; ++k) { acc += md == 0 ? a_pid_run(&q2, vs, vf) : md == 1 ? a_pid_pos(&q2, vs, vf) : a_pid_inc(&q2, vs, vf); }
+        VP_CHECK(cx, memcmp(&p2, &q2, sizeof(p2)) == 0 || !(acc == acc), "pid:call_not_counted",
+                 "%u identical steps (mode %u) with the results discarded leave out %.17g / sum %.17g, the same steps with the results used %.17g / %.17g", m, md, double(p2.out), double(p2.sum), double(q2.out), double(q2.sum));
+    }
 }
 
 static void run_case(Tape &t, Ctx &cx)
